@@ -71,11 +71,12 @@ PROPERTIES = {
         'explanation': 'per-bunch functional postconditions (ghost cell n,x,y) and frames of every transport map',
     },
     'C15': {
-        'units': [sm.KickMapApplyTo, sm.FokkerPlanckApplyTo, sm.SourceMapApplyToAll, sm.UpdateSM, sm.CalcCoefficiants, io.HDF5AppendTracks, mainspec.MainTrackingFile, mainloop.MainLoop, mainspec.MapDispatch, io.ProgramOptionsGetters],
+        'units': [sm.KickMapApplyTo, sm.FokkerPlanckApplyTo, sm.SourceMapApplyToAll, sm.UpdateSM, sm.CalcCoefficiants, io.HDF5AppendTracks, mainspec.MainTrackingFile, mainloop.MainLoop, mainspec.MapDispatch, io.ProgramOptionsGetters, io.ProgramOptionsPrecedence],
         'leaves': [leaf.FPApplyToLeaf, leaf.KickApplyToLeaf, leaf.PSxLeaf, leaf.PSyLeaf],
         'lemmas': [sm.lemmas_weights],
+        'main_scenarios': ['tracking'],
         'level': 'other',
-        'claim': 'every particle read from the tracking file starts on the grid whatever the file holds (main reading loop; clamps bit-precisely for every float incl. NaN); a tracked particle is displaced by minus the linearly interpolated offset (the displacement of the charge, by the k=1 moment lemma), every map keeps both '
+        'claim': 'every particle read from the tracking file starts on the grid whatever the file holds, at the k-th pair of the file (position on the position axis, energy on the energy axis; main reading loop; clamps bit-precisely for every float incl. NaN); applyToAll moves every particle exactly once per map; a tracked particle is displaced by minus the linearly interpolated offset (the displacement of the charge, by the k=1 moment lemma), every map keeps both '
                  'coordinates on the grid, the stochastic model is an Ornstein-Uhlenbeck step about the zero-energy bin; for every real position/offset (ideal arithmetic)',
         'assumptions': [A_IDEAL, A_LIB, DROPS, 'random draws are unconstrained reals', 'HDF5File::appendTracks requires every coordinate in [0, N-1] — the range the tracking maps are proved to keep'],
         'uncovered': ['statistical statement that an ensemble keeps mean and width (consequence of the OU step, not machine-checked)',
@@ -247,7 +248,7 @@ PROPERTIES = {
     },
     'C10': {
         'main_scenarios': ['records'],
-        'units': [mainloop.MainLoop, mainspec.MainWiring, mainspec.MapDispatch, mainspec.MainUnits, io.HDF5FileUnits, ps.PhaseSpaceCtor12, ps.RulerCtor, ef.ElectricFieldScale, io.ProgramOptionsGetters, io.ProgramOptionsSave, ps.UpdateXProjection, ps.UpdateYProjection, ps.Integrate, ps.Variance, ef.WakePotential, ef.UpdateCSR, io.HDF5FileSources, io.HDF5AppendField, io.HDF5AppendTracks, io.HDF5AppendData3f, io.HDF5AppendData2f, io.HDF5AppendData1f, io.HDF5AppendData4f, io.HDF5AppendData2a, io.HDF5AppendData3p, io.ReadPhaseSpace, io.MakePSFromHDF5],
+        'units': [mainloop.MainLoop, mainspec.MainWiring, mainspec.MapDispatch, mainspec.MainUnits, io.HDF5FileUnits, ps.PhaseSpaceCtor12, ps.RulerCtor, ef.ElectricFieldScale, io.ProgramOptionsGetters, io.ProgramOptionsPrecedence, io.ProgramOptionsSave, ps.UpdateXProjection, ps.UpdateYProjection, ps.Integrate, ps.Variance, ef.WakePotential, ef.UpdateCSR, io.HDF5FileSources, io.HDF5AppendField, io.HDF5AppendTracks, io.HDF5AppendData3f, io.HDF5AppendData2f, io.HDF5AppendData1f, io.HDF5AppendData4f, io.HDF5AppendData2a, io.HDF5AppendData3p, io.ReadPhaseSpace, io.MakePSFromHDF5],
         'lemmas': [],
         'level': 'other',
         'claim': 'partial: every record of a multi-row dataset takes row b from row b of its source (dataset extents vs buffer layout; for /CSR/Spectrum proved on the row copy of append(ElectricField*)) and no append reads beyond its source buffer; at every output event and at exit the CSR, wake-potential and particle datasets receive as many records as the time axis; the time value of the final record is simulationstep/steps; the derived quantities appended are the ones '
@@ -260,7 +261,7 @@ PROPERTIES = {
     },
     'C11': {
         'main_scenarios': ['restart'],
-        'units': [io.ReadPhaseSpace, io.MakePSFromHDF5, mainspec.MainStartDistribution, mainloop.MainLoop, io.ProgramOptionsGetters],
+        'units': [io.ReadPhaseSpace, io.MakePSFromHDF5, mainspec.MainStartDistribution, mainloop.MainLoop, io.ProgramOptionsGetters, io.ProgramOptionsPrecedence],
         'native_sweep': {'harness': 'h5start_replay', 'runs': [['all']], 'hdf5': True},
         'lemmas': [],
         'level': 'other',
